@@ -29,7 +29,7 @@ for patch in sorted(glob.glob(os.path.join(VERIF, 'selftest', 'preserving', '*.d
             if 'kind=tooling' in r.stdout:
                 rules.append('tooling')
             return pid, r.returncode, rules
-        with ThreadPoolExecutor(10) as ex:
+        with ThreadPoolExecutor(int(os.environ.get('JOBS', '10'))) as ex:
             rr = list(ex.map(one, IDS))
         status[name] = {pid: rules for pid, rc, rules in rr if rc != 0}
         print(name, 'silent' if not status[name] else status[name], flush=True)
